@@ -27,23 +27,35 @@ fn plan(tier: Tier) -> Vec<Workload> {
     vec![
         Workload::new("lines", tier.pick(600_000, 10_000_000) / BATCH),
         Workload::new("programs", tier.pick(40_000, 800_000)),
+        // many failing lines in front of a valid one: what the analyzer says about a line must not depend on how
+        // many other lines failed before it
+        Workload::new("accumulate", tier.pick(4_000, 60_000)),
     ]
 }
 
 /// (number of Error diagnostics, first error text)
 fn analysis_errors(text: &str) -> Result<(usize, String), String> {
+    analysis(text).map(|(n, first, _, _)| (n, first))
+}
+
+/// (number of Error diagnostics, first error text, file lines carrying an Error, nesting depth left behind)
+fn analysis(text: &str) -> Result<(usize, String, Vec<usize>, usize), String> {
     let a = crate::util::catch(|| SourceFileAnalyzer::analyze(text.to_string()))?;
     let mut n = 0;
     let mut first = String::new();
+    let mut lines = vec![];
     for m in a.messages() {
         if let DiagnosticMessage::Error(l, e) = m {
             if n == 0 {
                 first = format!("line {}: {}", l, e);
             }
+            lines.push(*l);
             n += 1;
         }
     }
-    Ok((n, first))
+    // the analyzer shares the nesting-depth counter with the evaluator through the Program it hands over
+    let depth = crate::util::catch(|| a.into_interpreter().verif_snapshot().nesting_depth)?;
+    Ok((n, first, lines, depth))
 }
 
 fn covered_kind(kind: &str) -> bool {
@@ -56,6 +68,18 @@ fn run_case(ctx: &Ctx, index: u64, rep: &mut Report) {
         "lines" => {
             for _ in 0..BATCH {
                 let body = stmt::line(&mut rng, 45);
+                // a twelfth of the lines put the statements behind a STOP (reached by CONT) or into the ELSE clause
+                // of an IF whose THEN clause ends the program: still one path, judged in the first direction only
+                let (body, needs_cont) = if rng.chance(1, 12) {
+                    match rng.below(4) {
+                        0 => (format!("STOP : {}", body), true),
+                        1 => (format!("PRINT 1 : STOP : {}", body), true),
+                        2 => (format!("IF 0 THEN END ELSE {}", body), false),
+                        _ => (format!("IF 0 THEN STOP ELSE {}", body), false),
+                    }
+                } else {
+                    (body, false)
+                };
                 let line = format!("10 {}", body);
                 let (nerr, first) = match analysis_errors(&line) {
                     Ok(x) => x,
@@ -76,10 +100,14 @@ fn run_case(ctx: &Ctx, index: u64, rep: &mut Report) {
                 }
                 // DATA for READ statements on the line: plenty of string-compatible items
                 sess.call(Op::Line("20 DATA a, b, c, d, e, f".into()));
-                let out = sess.run_line("RUN", 200);
+                let mut out = sess.run_line("RUN", 200);
+                if needs_cont && out.res.is_ok() {
+                    rep.count("lines.continued_after_stop");
+                    out = sess.run_line("CONT", 200);
+                }
                 let runtime_failed = !out.res.is_ok();
                 // the converse direction is stated for lines without a conditional only
-                let has_conditional = body.contains("IF ");
+                let has_conditional = body.contains("IF ") || needs_cont;
                 if nerr > 0 && has_conditional {
                     rep.count("lines.rejected_with_conditional_not_judged");
                     continue;
@@ -114,6 +142,41 @@ fn run_case(ctx: &Ctx, index: u64, rep: &mut Report) {
                 }
             }
             rep.evaluations += BATCH - 1;
+        }
+        "accumulate" => {
+            let k = 5 + rng.usize(90);
+            let mut lines: Vec<String> = (0..k).map(|i| {
+                let n = 10 * (i + 1);
+                match rng.below(5) {
+                    0 => format!("{} X = ((1 + \"A\"))", n),
+                    1 => format!("{} X = \"S\" + {}", n, i),
+                    2 => format!("{} PRINT (((\"a\" * 2)))", n),
+                    3 => format!("{} IF 1 THEN IF 1 THEN X = ((\"q\"))", n),
+                    _ => format!("{} A$ = ((((1))))", n),
+                }
+            }).collect();
+            let valid = rng.s(&["Y = ((((1))))", "PRINT (((1 + 2) * 3) - 4)", "A$ = \"x\"", "PRINT ABS(INT(ABS(-2)))", "PRINT 1",
+                "IF 1 THEN IF 1 THEN IF 1 THEN PRINT ((2))", "DIM Q(((3)))", "Y = (((((((((((((((((((( 1 ))))))))))))))))))))"]);
+            lines.push(format!("{} {}", 10 * (k + 1), valid));
+            let text = lines.join("\n");
+            match analysis(&text) {
+                Err(m) => ctx.violation(rep, "C05", "analyzer-panic", index, format!("analyzer panicked: {}", m), json!({"file": lines})),
+                Ok((_, _, error_lines, depth)) => {
+                    rep.count("accumulate.files");
+                    rep.add("accumulate.failing_lines_before_the_valid_one", k as u64);
+                    if error_lines.contains(&k) {
+                        ctx.violation(rep, "C06", "valid-line-rejected-after-failing-lines", index,
+                            format!("after {} failing lines the analyzer also rejects the valid line `{}` (it accepts it when it stands alone, and it runs)", k, valid),
+                            json!({"file": lines}));
+                    } else if depth != 0 {
+                        ctx.violation(rep, "C01", "nesting-depth-leak", index,
+                            format!("after analysing a file with {} failing lines the nesting-depth counter handed to the interpreter is {} (must be 0)", k, depth),
+                            json!({"file": lines}));
+                    } else {
+                        rep.nontrivial(hash_str(&text));
+                    }
+                }
+            }
         }
         "programs" => {
             let k = 1 + rng.usize(4);
@@ -201,6 +264,7 @@ fn run_case(ctx: &Ctx, index: u64, rep: &mut Report) {
 fn finalize(_tier: Tier, rep: &mut Report) -> Finalize {
     Finalize {
         rule: "lines: G-stmt lines of 1-3 straight-line statements (assignments to scalars and cells with/without $, PRINT, DIM, FOR..TO..STEP, READ, RESTORE, DATA, REM; operands of every kind at every operator tier incl. chained comparisons, AND/OR/NOT over strings, unary + and -), 45% with one or two typing or syntax mistakes (incl. an ELSE that belongs to no IF and an ELSE after a multi-statement THEN clause); a tenth of the lines wrap a statement in an IF with a constant condition (judged in the first direction only); `10 <line>` is analysed and, independently, run on a fresh interpreter (with a DATA line for READ): analyzer error => the run must fail; analyzer clean => the run must not fail with SYNTAX / TYPE MISMATCH / UNDEF'D STATEMENT. \
+               accumulate: 5-94 lines that fail analysis inside nested expressions followed by one valid line: the valid line must not be rejected and the nesting counter handed to the interpreter must be 0. A twelfth of the `lines` cases put the statements behind a STOP (executed by CONT) or into the ELSE clause of `IF 0 THEN END`. \
                programs: G-prog programs whose IF conditions mostly test Z1..Zk (k <= 4) read by INPUT on the first line, with typing mistakes injected at 4% of assignments, half of the files with their lines in shuffled order; analysis-clean programs are executed under all 2^k reply vectors and must never end in one of the three error kinds. \
                Non-trivial: a line that mixes string and numeric operands; a program with >= 2 forced condition variables. Distinct by hash of the text.".into(),
         floors: vec![
@@ -208,6 +272,8 @@ fn finalize(_tier: Tier, rep: &mut Report) -> Finalize {
             ("lines.accepted_by_analyzer".into(), 50_000),
             ("programs.accepted_by_analyzer".into(), 5_000),
             ("programs.executions".into(), 30_000),
+            ("accumulate.files".into(), 3_000),
+            ("lines.continued_after_stop".into(), 2_000),
             ("distinct_nontrivial".into(), 50_000),
         ],
         assumptions: vec![
